@@ -2510,6 +2510,43 @@ impl VerifiedKeyspaceName {
     }
 }
 
+/// Verification hooks: thin pass-throughs to private items, no logic.
+#[cfg(feature = "scylla-verif")]
+pub(crate) mod verif_hooks {
+    use super::{StreamIdSet, VerifiedKeyspaceName};
+    use crate::errors::BadKeyspaceName;
+
+    pub(crate) struct StreamIds(StreamIdSet);
+
+    impl StreamIds {
+        pub(crate) fn new() -> Self {
+            Self(StreamIdSet::new())
+        }
+        pub(crate) fn from_bitmap(bitmap: Box<[u64]>) -> Self {
+            Self(StreamIdSet {
+                used_bitmap: bitmap,
+            })
+        }
+        pub(crate) fn bitmap(&self) -> &[u64] {
+            &self.0.used_bitmap
+        }
+        pub(crate) fn allocate(&mut self) -> Option<i16> {
+            self.0.allocate()
+        }
+        pub(crate) fn free(&mut self, stream_id: i16) {
+            self.0.free(stream_id)
+        }
+    }
+
+    pub(crate) fn verify_keyspace_name(
+        name: String,
+        case_sensitive: bool,
+    ) -> Result<(String, bool), BadKeyspaceName> {
+        VerifiedKeyspaceName::new(name, case_sensitive)
+            .map(|v| (v.as_str().to_owned(), v.is_case_sensitive))
+    }
+}
+
 #[cfg(test)]
 mod tests {
     use crate::frame::protocol_features::{
